@@ -430,7 +430,55 @@ func related(vs []value, i, j int) bool {
 	return bi == bj
 }
 
+// stringContents: at every string-valued place of a populated node / edge, every ordered pair of the near-string
+// menu on the two sides: equality (and checksum agreement) holds iff the two strings are the same string.
+func stringContents(c *engine.Ctx) {
+	c.Group("string-contents")
+	menu := gen.NearStrings()
+	full := &sbom.Node{}
+	gen.Full(full, "A", 2)
+	slots := gen.StringSlots(full, 2)
+	edge := &sbom.Edge{From: "a", Type: sbom.Edge_contains, To: []string{"b", "c"}}
+	eslots := gen.StringSlots(edge, 0)
+	c.Bound("string-contents", fmt.Sprintf("(%d node + %d edge string-valued places) x all %d ordered pairs of a %d-entry near-string menu", len(slots), len(eslots), len(menu)*len(menu), len(menu)))
+	run := func(kind string, base proto.Message, sl []gen.StringSlot, eq equaler, sum func(m proto.Message) string) {
+		for si := range sl {
+			for i := range menu {
+				for j := range menu {
+					si, i, j := si, i, j
+					c.Case(func() any { return map[string]any{"kind": kind, "place": sl[si].Label, "first": menu[i], "second": menu[j]} }, func(t *engine.T) *engine.Violation {
+						a, b := proto.Clone(base), proto.Clone(base)
+						sl[si].Set(a.ProtoReflect(), menu[i])
+						sl[si].Set(b.ProtoReflect(), menu[j])
+						e1, e2 := eq(a, b), eq(b, a)
+						t.Transitions(2)
+						t.Validated(1)
+						if e1 != e2 {
+							return engine.Violate("symmetric", "", "%s place %s: Equal(%q,%q)=%v but reversed %v", kind, sl[si].Label, menu[i], menu[j], e1, e2)
+						}
+						if sum != nil && (sum(a) == sum(b)) != e1 {
+							return engine.Violate("checksum-agreement", "", "%s place %s with %q vs %q: Equal=%v but checksums equal=%v", kind, sl[si].Label, menu[i], menu[j], e1, !e1)
+						}
+						if e1 && menu[i] != menu[j] {
+							return engine.Violate("discrimination", discriminationTrigger(a, b), "%s place %s: %q and %q compare equal", kind, sl[si].Label, menu[i], menu[j])
+						}
+						if !e1 && menu[i] == menu[j] {
+							return engine.Violate("reflexive", "", "%s place %s: the same value %q on both sides compares unequal", kind, sl[si].Label, menu[i])
+						}
+						t.State(fmt.Sprintf("str|%s|%s|%d|%d", kind, sl[si].Label, i, j))
+						t.Outcome(fmt.Sprintf("string-contents equal=%v", e1))
+						return nil
+					})
+				}
+			}
+		}
+	}
+	run("node", full, slots, func(a, b proto.Message) bool { return a.(*sbom.Node).Equal(b.(*sbom.Node)) }, func(m proto.Message) string { return m.(*sbom.Node).Checksum() })
+	run("edge", edge, eslots, func(a, b proto.Message) bool { return a.(*sbom.Edge).Equal(b.(*sbom.Edge)) }, nil)
+}
+
 func Run(c *engine.Ctx) {
+	stringContents(c)
 	family(c, "node", nodeValues(c.Thorough()),
 		func(a, b proto.Message) bool { return a.(*sbom.Node).Equal(b.(*sbom.Node)) },
 		func(m proto.Message) string { return m.(*sbom.Node).Checksum() })
